@@ -423,6 +423,9 @@ func (p *sparser) postfix() (*SExpr, error) {
 type ContractSet struct {
 	ByKey map[string]*Contract // function key -> contract
 	Funcs map[string]*Contract // Go func name (lemma/pure) -> contract
+	// LenientDup: a second contract for the same key is parsed and dropped (first wins); used for the
+	// trusted standard-library contract files, which several property authors extend independently
+	LenientDup bool
 }
 
 func stripSpecPrefix(line string) (string, bool) {
@@ -532,9 +535,12 @@ func ParseContracts(fset *token.FileSet, filename string, src []byte, cs *Contra
 				}
 				c.Pos = where
 				if _, dup := cs.ByKey[c.Key]; dup {
-					return fmt.Errorf("%s: duplicate contract for %s", where, c.Key)
+					if !cs.LenientDup {
+						return fmt.Errorf("%s: duplicate contract for %s", where, c.Key)
+					}
+				} else {
+					cs.ByKey[c.Key] = c
 				}
-				cs.ByKey[c.Key] = c
 				cur = c
 				continue
 			}
